@@ -60,6 +60,7 @@ void harness(void) {
     long long clock0 = vs.clock;
     int faults0 = vs.nfaults;
     vs_begin_call(FAULTS, VS_M_EINTR | VS_M_EAGAIN | VS_M_SHORT);
+    vs.nb_call = !blocking;
     if (is_send) {
       int n = ND_RANGE(1, VS_CAP);
       for (int k = 0; k < VS_CAP; k++) buf[k] = ND_UCHAR();
